@@ -83,6 +83,9 @@ func (t *Target) forEachSOpt(tier string, r *Result, o sOpts, fn func(s interfac
 				return
 			}
 			seen[key] = true
+			if !mine(key) {
+				return
+			}
 			fn(s, SWitness{Kind: "struct", Base: base, Choices: append([]int{}, ch.Choices...), Points: b.Points, Value: key})
 		}
 	}
@@ -109,8 +112,8 @@ func (t *Target) forEachSOpt(tier string, r *Result, o sOpts, fn func(s interfac
 		}
 		r.Bound = fmt.Sprintf("deviation bound k=%d around %d bases", k, len(bases))
 	}
-	r.States += len(seen)
-	r.Nontrivial = len(seen)
+	r.States += len(seen) / partN
+	r.Nontrivial = len(seen) / partN
 }
 
 // estimate bounds the number of executions with at most k deviations among alts alternatives.
